@@ -201,6 +201,12 @@ ROOTS["end_of_deep_chain"] = ["fn r{g}() {{", "  var l = {H};", "  for i in 0..1
 ROOTS["capture_in_loop_body_left_by_continue"] = ["fn r{g}() {{", "  var fns = [];", "  for i in 0..3 {{", "    var l = {H};",
                                                   "    fns.push(|| {{ return l; }});", "    if i >= 0 {{ continue; }}", "    fns.push(nil);", "  }}",
                                                   "  churn({n});", "  var l = fns[1]();", "  return {P};", "}}", 'print(("ev", {g}, r{g}()));']
+# a closure factory made on a suspended fiber and CALLED on another one: the inner closure inherits the captured variable, which
+# still lives on the first fiber's stack; that fiber is then dropped
+ROOTS["nested_capture_made_elsewhere_on_dropped_fiber"] = [
+    "fn r{g}() {{", "  var f = Fiber.new(|x| {{ var l = x; var mk = || {{ return || {{ return l; }}; }}; Fiber.yield(mk); return 0; }});",
+    "  var mk = f.call({H});", "  var get = mk();", "  mk = nil;", "  f = nil;", "  churn({n});", "  var l = get();", "  return {P};", "}}",
+    'print(("ev", {g}, r{g}()));']
 GEN_ROOTS = sorted(ROOTS)
 
 # ---- operations that make the interpreter hold fresh objects mid-operation ({u} = unique number)
@@ -425,7 +431,7 @@ def render(ir):
     if ir.get("reset"):
         # the program rebinds built-in function names before the host resets the interpreter: the built-ins a reset brings
         # back must be alive (nothing but the rebound globals table referred to the old ones)
-        out.append('var type = [9]; var clock = [8]; print(("ev", "rebound", type, clock, churn(2)));')
+        out.append('var type = [9]; var clock = [8]; var MapIter = [7]; var FilterIter = [6]; var Iter = [5]; print(("ev", "rebound", type, clock, MapIter, FilterIter, Iter, churn(2)));')
     return "\n".join(out) + "\n"
 
 
